@@ -156,6 +156,14 @@ def r4_widen(text, where, log):
     return _R4_VIS.sub('pub', text)
 
 
+def contract_of(unit, key):
+    """the contract text another unit proves for the item with this key (for STUB reuse)"""
+    for kind, it in unit.parts:
+        if kind == 'item' and it.key == key and not it.kw.get('stub'):
+            return it.kw['contract']
+    raise KeyError(key)
+
+
 def sibling(name):
     """import units/<name>/unit.py (so that one unit can reuse the contracts another proves)"""
     import importlib.util
@@ -480,10 +488,12 @@ class Unit:
             if n != 1:
                 raise ExtractError('%s: lift anchor %r found %d times' % (where, anchor, n))
             a = text.index(anchor) + (len(anchor) if key == 'start_after' else 0)
-            e = text.find(lift['end_at'], a)
+            endk = 'end_at' if 'end_at' in lift else 'end_before'
+            e = text.find(lift[endk], a)
             if e < 0:
-                raise ExtractError('%s: lift end %r not found after start' % (where, lift['end_at']))
-            e += len(lift['end_at'])
+                raise ExtractError('%s: lift end %r not found after start' % (where, lift[endk]))
+            if endk == 'end_at':
+                e += len(lift[endk])
             body = text[a:e]
             # the range must be balanced, or it is not a statement sequence
             code = rsitems.lex_mask(body)
